@@ -3,7 +3,7 @@
 
   The Python code iterates over `set`s — `names = set(bdd.vars)` in `_apply_sifting`, the level
   sets `all_levels[x]`, `all_levels[y]` inside `swap` — in an order that the code does not
-  control.  A `Choice` is an adversary that picks those orders: `names l` for the set of variable
+  control.  A `Choice` is an adversary that picks those orders: `names k l` for the set of variable
   names whose sorted list is `l`, `level k j l` for the level set of level `j` whose sorted list is
   `l`, at the moment when `k` orders have been picked so far (so that the same set may be iterated
   differently at different times, as with Python sets, whose order depends on their history).
@@ -22,11 +22,11 @@ namespace DD
 
 /-- a choice of iteration orders (see the file header) -/
 structure Choice where
-  names : List String → List String
+  names : Nat → List String → List String
   level : Nat → Nat → List Nat → List Nat
 
 /-- the choice that takes every set in ascending order (what the model does with no schedule) -/
-def Choice.default : Choice := ⟨fun l => l, fun _ _ l => l⟩
+def Choice.default : Choice := ⟨fun _ l => l, fun _ _ l => l⟩
 
 /-- `swap` on validated adjacent levels under the choice `c`; `log` = the orders picked so far -/
 def swapBodyC (c : Choice) (x y : Nat) (log : List SchedItem) : M ((Nat × Nat) × List SchedItem) := do
@@ -103,7 +103,7 @@ def applySiftingC (c : Choice) (log : List SchedItem) : M (Unit × List SchedIte
   collectGarbage none
   let m ← M.get
   let n := m.len
-  let names := c.names m.tbl.vars.keys
+  let names := c.names log.length m.tbl.vars.keys
   let log := log ++ [.sift names]
   if names.isEmpty then M.throw .other else
   let (_, log) ← siftVarsC c names log
